@@ -100,6 +100,10 @@ def build(sh, precision=None, normalize=True, rational=None, meta=None):
 def defn(o):
     """definition read back through public getters"""
     pd = o.pdimension
+    orders = [int(o.order)] if pd == 1 else [int(getattr(o, "order_" + d)) for d in "uvw"[:pd]]
+    degs = [int(o.degree)] if pd == 1 else [int(x) for x in o.degree]
+    if orders != [d + 1 for d in degs]:
+        raise RuntimeError("order getters %s are not degree + 1 for degrees %s" % (orders, degs))
     return {"pdim": pd, "rat": bool(o.rational), "size": [int(x) for x in o.cpsize],
             "deg": [int(o.degree)] if pd == 1 else [int(x) for x in o.degree],
             "kv": [list(o.knotvector)] if pd == 1 else [list(k) for k in o.knotvector],
